@@ -154,7 +154,11 @@ Proof.
   intros H; unfold are_joinable.
   repeat match goal with |- aux _ (snd (if ?c then _ else _)) => destruct c; cbn [snd]; auto end.
   pose proof (aux_get_refs s0 s b H) as H1. destruct (get_refs s b) as [syms s1]; cbn [snd] in H1.
-  repeat match goal with |- aux _ (snd (if ?c then _ else _)) => destruct c; cbn [snd]; auto end.
+  destruct (existsb _ syms); cbn [snd]; auto.
+  destruct (bsize (the_blk s b) =? 0)%Z.
+  - repeat match goal with |- aux _ (snd (if ?c then _ else _)) => destruct c; cbn [snd]; auto end.
+  - pose proof (aux_get_refs s0 s1 a H1) as H2. destruct (get_refs s1 a) as [syms1 s2]; cbn [snd] in H2.
+    repeat match goal with |- aux _ (snd (if ?c then _ else _)) => destruct c; cbn [snd]; auto end.
 Qed.
 Lemma aux_join_syms s0 s s' a b z : aux s0 s -> join_syms s a b z = Ok s' -> aux s0 s'.
 Proof.
